@@ -1171,6 +1171,28 @@ def replay(ctx, path):
         if rc != 0 or not o.startswith("ok "):
             ctx.violation(r.get("signature", "peg"), r, what="still fails: " + o[:300])
         return ctx.finish("proof", {"evaluations": 1, "distinct_nontrivial": 1, "rule": "replay", "samples": [o[:200]]})
+    if kind == "codegraph":
+        hxc = ctx.build.harness("asan", "c09codedesc", [os.path.join(H, "codedesc.c")])
+        rc, out, err = run_cmd([hxc, os.path.join(H, "codegraph.janet"), "gen", str(r["gen_seed"]), str(r["per"])], timeout=3000, env=ENV)
+        for l in out.decode(errors="replace").splitlines():
+            p = l.split(" ", 3)
+            if len(p) >= 2 and p[0].isdigit() and int(p[0]) == r["index"]:
+                print("replayed: case %s verdict %s" % (p[0], p[1]))
+                if p[1] != "ok":
+                    ctx.violation(r.get("signature", "codegraph-roundtrip"), r, what="still fails: " + p[1])
+                return ctx.finish("proof", {"evaluations": 1, "distinct_nontrivial": 1, "rule": "replay", "samples": [l[:200]]})
+    if kind == "chan" and r.get("line"):
+        c = r["line"].split(" ")
+        hxc = ctx.build.harness("asan", "c09codedesc", [os.path.join(H, "codedesc.c")])
+        src = ("(def ch (ev/chan %s)) %s %s (def b (marshal ch)) (def c2 (unmarshal b)) (print (if (and (= (string (marshal c2)) (string b)) (= (ev/count c2) %d)) \"ok\" \"FAIL\"))"
+               % (c[4], " ".join("(ev/give ch %s)" % x[1:] for x in c[6:] if x), "(ev/chan-close ch)" if c[3] == "1" else "", len([x for x in c[6:] if x])))
+        janet = ctx.build.variant("asan")["janet"]
+        rc, out, err = run_cmd([janet, "-e", src], timeout=600, env=ENV)
+        o = out.decode(errors="replace").strip()
+        print("replayed:", o, err.decode(errors="replace")[-300:])
+        if rc != 0 or o != "ok":
+            ctx.violation(r.get("signature", "channel-roundtrip"), r, what="still fails: " + o[:200])
+        return ctx.finish("proof", {"evaluations": 1, "distinct_nontrivial": 1, "rule": "replay", "samples": [o[:200]]})
     if kind == "fdeep":
         hxc = ctx.build.harness("asan", "c09codedesc", [os.path.join(H, "codedesc.c")])
         fd = function_depth(ctx, hxc, None, 1024, [], lo=r["lo"], hi=r["hi"])
